@@ -24,6 +24,7 @@ import logging
 import os
 import random
 import shutil
+import subprocess
 import sys
 import tempfile
 import threading
@@ -43,6 +44,7 @@ from watchdog.events import FileCreatedEvent, FileModifiedEvent, FileDeletedEven
 class Ctx:
     proc = None       # emulated process on whose behalf real code currently runs
     tokenfile = None  # TokenFile whose watch() is running
+    early = None      # name of the file whose watcher thread finishes at once (startrace)
 
 
 class FakeLoop:
@@ -60,6 +62,11 @@ class ParkedThread:
 
     def start(self):
         tf = Ctx.tokenfile
+        if Ctx.early is not None and tf.path.name == Ctx.early:
+            # this watcher thread wins the race against the rest of CounterToken.__init__
+            Ctx.early = None
+            self.target()
+            return
         Ctx.proc.watchers.append((tf.path.name, self.target))
 
 
@@ -133,7 +140,7 @@ class FsWorld:
         self.jobs = []
         for i, j in enumerate(sc["jobs"]):
             fj = FakeJob(i, root)
-            self.jobs.append(dict(p=j["p"], c=j["c"], phase=IDLE, orphan=False, job=fj, saved=None, code=None))
+            self.jobs.append(dict(p=j["p"], c=j["c"], phase=IDLE, orphan=False, job=fj, saved=None, code=None, proc=None))
         self.loop = FakeLoop()
 
     # ---- directory
@@ -144,7 +151,19 @@ class FsWorld:
                 out[f.name] = f.stat().st_size
         return out
 
-    def emit(self, before, after):
+    def pidpath(self, i):
+        return self.jobs[i]["job"].basepath.with_suffix(".pid")
+
+    def cleanup(self):
+        for j in self.jobs:
+            if j["proc"] is not None:
+                try:
+                    j["proc"].kill()
+                    j["proc"].wait()
+                except Exception:
+                    pass
+
+    def emit(self, before, after, skip=None):
         evs = []
         for n in sorted(after):
             if n not in before:
@@ -156,7 +175,7 @@ class FsWorld:
                 evs.append(("deleted", n))
         for ev in evs:
             for pr in self.procs:
-                if pr.alive and pr.obs:
+                if pr.alive and pr.obs and pr is not skip:
                     pr.evq.append(ev)
 
     def lock_free(self):
@@ -173,6 +192,10 @@ class FsWorld:
             if not pr.alive:
                 if lf:
                     st.append(["start", p])
+                    for n, size in sorted(self.listing().items()):
+                        i = int(n[1:-len(".token")])
+                        if size > 0 and self.jobs[i]["phase"] in (IDLE, ENDED, DONE):
+                            st.append(["startrace", p, i])
                 continue
             if not self.creating_in(p):
                 st.append(["kill", p])
@@ -189,6 +212,7 @@ class FsWorld:
             if j["phase"] == RUNNING:
                 st.append(["end", i, 0])
                 st.append(["end", i, 1])
+                st.append(["jobkill", i])
             if j["orphan"] or not pr.alive:
                 continue
             if j["phase"] == IDLE and lf and i in pr.deps and pr.deps[i].currentstatus == DependencyStatus.OK:
@@ -206,10 +230,14 @@ class FsWorld:
         k = op[0]
         before = self.listing()
         res = "ok"
-        if k == "start":
+        skip = None
+        if k in ("start", "startrace"):
             p = op[1]
             pr = self.procs[p]
             Ctx.proc = pr
+            if k == "startrace":
+                Ctx.early = "j%d.token" % op[2]
+                skip = pr   # the new process has no directory watch yet when the file disappears
             pr.alive, pr.obs, pr.evq, pr.watchers, pr.deps, pr.locks = True, True, [], [], {}, {}
             pr.token = T.CounterToken("tok", self.tokdir, self.total)
             # submission of the jobs of this scheduler (Scheduler.aio_submit l.581-588)
@@ -221,6 +249,9 @@ class FsWorld:
                     dep.origin.dependents.add(dep)
                     dep.check()
                     pr.deps[i] = dep
+            if k == "startrace" and Ctx.early is not None:
+                Ctx.early = None
+                res = "raised:NoEarlyWatcher"
         elif k == "kill":
             p = op[1]
             pr = self.procs[p]
@@ -262,10 +293,21 @@ class FsWorld:
             f.write_bytes(j["saved"])
             j["phase"] = HOLDING
         elif k == "launch":
-            self.jobs[op[1]]["phase"] = RUNNING
-        elif k == "end":
+            # Job.aio_run: the process is started and its pid file written (under the job lock)
             j = self.jobs[op[1]]
-            j["phase"], j["code"] = ENDED, op[2]
+            j["proc"] = subprocess.Popen(["sleep", "600"])
+            self.pidpath(op[1]).write_text(json.dumps({"type": "local", "pid": j["proc"].pid}))
+            j["phase"] = RUNNING
+        elif k in ("end", "jobkill"):
+            j = self.jobs[op[1]]
+            j["proc"].kill()
+            j["proc"].wait()
+            j["proc"] = None
+            if k == "end":
+                # orderly end: the job removes its pid file; a killed job leaves it behind
+                self.pidpath(op[1]).unlink()
+                j["code"] = op[2]
+            j["phase"] = ENDED
         elif k == "release":
             p, i = op[1], op[2]
             pr, j = self.procs[p], self.jobs[i]
@@ -304,7 +346,7 @@ class FsWorld:
         else:
             raise ValueError(k)
         Ctx.proc = None
-        self.emit(before, self.listing())
+        self.emit(before, self.listing(), skip)
         return res
 
     # ---- observables
@@ -329,16 +371,17 @@ class FsWorld:
             st = None
             if pr.alive and i in pr.deps and not j["orphan"]:
                 st = pr.deps[i].currentstatus.name
-            jobs.append([j["phase"], st, j["orphan"]])
+            jobs.append([j["phase"], st, j["orphan"], self.pidpath(i).is_file()])
         return dict(disk=disk, procs=procs, jobs=jobs)
 
 
-DEFAULT_W = dict(start=6, kill=1, acquire=8, write=10, launch=8, end=6, release=8, deliver=10, fire=6)
+DEFAULT_W = dict(start=6, startrace=3, kill=1, acquire=8, write=10, launch=8, end=6, jobkill=1, release=8, deliver=10, fire=6)
 
 
 def run_fs(sc):
     root = Path(tempfile.mkdtemp(prefix="xpmverif-tok-", dir=sc.get("scratch")))
     try:
+        w = None
         install_shims()
         w = FsWorld(sc, root)
         rng = random.Random(sc.get("seed", 0))
@@ -363,7 +406,7 @@ def run_fs(sc):
                     break
                 # late phase: drain (no new acquisitions) so that runs end quiescent
                 if len(out) >= sc.get("nsteps", 40) - sc.get("drain", 0):
-                    en2 = [e for e in en if e[0] not in ("acquire", "kill", "start")]
+                    en2 = [e for e in en if e[0] not in ("acquire", "kill", "start", "startrace")]
                     en = en2 or en
                 op = rng.choices(en, [weights[e[0]] for e in en])[0]
                 if op[0] == "kill":
@@ -372,6 +415,10 @@ def run_fs(sc):
                 out.append(dict(op=op, res=res, obs=w.snapshot()))
         return dict(steps=out, error=err)
     finally:
+        try:
+            w.cleanup()
+        except Exception:
+            pass
         shutil.rmtree(root, ignore_errors=True)
 
 
@@ -514,6 +561,103 @@ def run_realobs(sc):
         shutil.rmtree(root, ignore_errors=True)
 
 
+# --------------------------------------------------------------------------- real aio_start window
+def other_token_user(tokendir, workdir):
+    """A second process that has the token directory open (real observer, real watcher threads)."""
+    T.CounterToken("other", Path(tokendir), 1, force=False)
+    (Path(workdir) / "other.ready").touch()
+    limit = time.time() + 120
+    while not (Path(workdir) / "other.stop").exists() and time.time() < limit:
+        time.sleep(0.05)
+    os._exit(0)
+
+
+def run_startwin(sc):
+    """The real Scheduler.aio_start on a job whose start is slow, while another process watches the
+    token directory: from the moment the token is taken until the job process has ended, the token
+    file of the job must stay (TokenFile.watch of the other process may only delete it once the job
+    lock is free and the job's process is gone)."""
+    import asyncio
+    root = Path(tempfile.mkdtemp(prefix="xpmverif-tokw-", dir=sc.get("scratch")))
+    other = None
+    res = dict(error=None)
+    try:
+        from experimaestro import experiment
+        from experimaestro.commandline import CommandLineJob
+        from vpk_c08.tasks import HoldTask
+        total = sc.get("total", 2)
+        delay = sc.get("delay", 0.6)
+        tokendir = root / "shared-token"
+        tokendir.mkdir()
+        (tokendir / "token.info").write_text(str(total))
+        other = subprocess.Popen([sys.executable, "-W", "ignore", __file__, "other", str(tokendir), str(root)],
+                                 stdout=subprocess.DEVNULL, stderr=subprocess.DEVNULL)
+        limit = time.time() + 40
+        while not (root / "other.ready").exists():
+            if time.time() > limit or other.poll() is not None:
+                return dict(error="the second token user did not start")
+            time.sleep(0.02)
+        orig = CommandLineJob.aio_run
+
+        async def slow_run(self):
+            # a slow start: the scheduler holds the job lock (and the token) while it prepares the job
+            seen.append(sorted(f.name for f in tokendir.glob("*.token")))
+            await asyncio.sleep(delay)
+            seen.append(sorted(f.name for f in tokendir.glob("*.token")))
+            return await orig(self)
+
+        seen = []
+        CommandLineJob.aio_run = slow_run
+        try:
+            with experiment(root / "xp", "startwin", port=-1) as xp:
+                xp.workspace.launcher.setenv("PYTHONPATH", os.environ.get("PYTHONPATH", ""))
+                token = T.CounterToken("tok", tokendir, total)
+                task = HoldTask(dir=root, x=1)
+                task.add_dependencies(token.dependency(total))
+                task.submit()
+                try:
+                    limit = time.time() + 60
+                    while not (root / "started.1").exists() and time.time() < limit:
+                        time.sleep(0.02)
+                    res["started"] = (root / "started.1").exists()
+                    time.sleep(0.4)
+                    files = sorted(f.name for f in tokendir.glob("*.token"))
+                    res["files_at_start_of_run"] = seen[0] if seen else None
+                    res["files_after_slow_start"] = seen[1] if len(seen) > 1 else None
+                    res["files_while_running"] = files
+                    res["available_while_running"] = int(token.available)
+                    # a second job asking for one unit must not be granted while the first one runs
+                    dep2 = token.dependency(1)
+                    granted = True
+                    try:
+                        token.acquire(dep2_target(dep2, root))
+                        token.release(dep2)
+                    except LockError:
+                        granted = False
+                    res["second_acquisition_granted"] = granted
+                finally:
+                    (root / "go").write_text("go")
+                    xp.wait()
+            res["total"] = total
+        finally:
+            CommandLineJob.aio_run = orig
+        return res
+    finally:
+        (root / "other.stop").touch()
+        if other is not None:
+            try:
+                other.wait(5)
+            except Exception:
+                other.kill()
+        shutil.rmtree(root, ignore_errors=True)
+
+
+def dep2_target(dep, root):
+    dep.target = FakeJob(99, root)
+    dep.loop = FakeLoop()
+    return dep
+
+
 def run_one(sc):
     kind = sc.get("kind", "fs")
     if kind == "fs":
@@ -525,6 +669,8 @@ def run_one(sc):
     if kind == "stress":
         from tokstress import run_stress
         return run_stress(sc)
+    if kind == "startwin":
+        return run_startwin(sc)
     raise ValueError(kind)
 
 
@@ -537,6 +683,7 @@ def run_forked(sc, timeout):
     if pid == 0:
         code = 0
         try:
+            os.setpgrp()   # job processes started by the scenario die with it on a timeout
             os.close(r)
             try:
                 res = run_one(sc)
@@ -569,7 +716,7 @@ def run_forked(sc, timeout):
             chunks.append(b)
     if timed_out:
         try:
-            os.killpg(os.getpgid(pid), 0)
+            os.killpg(pid, signal.SIGKILL)
         except Exception:
             pass
         try:
@@ -589,6 +736,8 @@ def run_forked(sc, timeout):
 
 
 def main():
+    if len(sys.argv) > 1 and sys.argv[1] == "other":
+        other_token_user(sys.argv[2], sys.argv[3])
     payload = json.load(sys.stdin)
     if "scenarios" in payload:
         res = [run_forked(sc, payload.get("timeout", 30)) for sc in payload["scenarios"]]
